@@ -2,7 +2,7 @@
    Statements only (copied from the lemma libraries); every proof is a bare
    `exact`; see the cited files in coq/proofs for the proofs. *)
 From Coq Require Import List NArith ZArith Bool Arith Sorting.Sorted Sorting.Permutation.
-From D2P Require Import Str Err Xml TableTypes Tables Fmt Merge Collector Walk TokFacts MiscFacts.
+From D2P Require Import Str Err Xml TableTypes Tables Fmt Merge Collector Walk TokFacts MiscFacts ProjFacts.
 Import ListNotations.
 Open Scope N_scope.
 Import String.StringSyntax.
@@ -93,3 +93,54 @@ Theorem C07_baseline_no_tag :
   format_Pr_into_html [(s2l "vertAlign"%string, Some (s2l "baseline"%string))] xml2html_table = Ok [].
 Proof. exact baseline_no_tag. Qed.
 Print Assumptions C07_baseline_no_tag.
+
+(* PROJECTION ONTO PLAIN, for EVERY element tree (tables, merged cells, nested paragraphs, hyperlink bodies, comment ranges): paragraph by paragraph, deleting the formatting tags (each with its matching closing tag: erase) from the html=True tokens yields exactly the html=False tokens of the same paragraph - text tokens are the same in both modes and differ only by the entity escaping applied when rendered (C07_unescape) - and element, style, lineage, list position are equal *)
+Theorem C07_projection :
+  forall v t path s sp ps, styles_ok v ->
+  collect_from v path t = Ok s -> collect_from (plain_env v) path t = Ok sp ->
+  pars_at 4 (c_tree s) = Ok ps ->
+  exists ps', pars_at 4 (c_tree sp) = Ok ps' /\ length ps' = length ps /\
+    forall i p p', nth_error ps i = Some p -> nth_error ps' i = Some p' ->
+      p_elem p' = p_elem p /\ p_copy p' = p_copy p /\ p_style p' = p_style p /\
+      p_lineage p' = p_lineage p /\ p_listpos p' = p_listpos p /\
+      forall rs, par_run_toks p = Ok rs ->
+        exists rs', par_run_toks p' = Ok rs' /\ erase [] (concat rs) = concat rs'.
+Proof. exact projection_paragraphs. Qed.
+Print Assumptions C07_projection.
+
+(* the simulation behind it: whenever the html extraction of a tree succeeds, so does the plain one, and the plain collector state is the projection of the html one *)
+Theorem C07_projection_state :
+  forall v t path s,
+  styles_ok v -> collect_from v path t = Ok s ->
+  exists sp, collect_from (plain_env v) path t = Ok sp /\ Rst s sp.
+Proof. exact collect_projects. Qed.
+Print Assumptions C07_projection_state.
+
+(* with the formatter table regenerated from the source, no style string can be mistaken for a content tag (<a href=, <latex>, the symbol span) *)
+Theorem C07_styles_are_formatting :
+  forall v, env_x2h v = xml2html_table -> styles_ok v.
+Proof. exact styles_ok_table. Qed.
+Print Assumptions C07_styles_are_formatting.
+
+(* deleting formatting tags is the identity on html=False output *)
+Theorem C07_erase_identity_on_plain :
+  forall ts,
+  (forall s, In (TOpen s) ts -> content_open s = true) ->
+  forall stk, Forall (fun b => b = false) stk -> erase stk ts = ts.
+Proof. exact erase_plain_fixed. Qed.
+Print Assumptions C07_erase_identity_on_plain.
+
+(* exactly when every style string has a first word (so that its closing tag can be written): every vertAlign entry is switched off or has a non-blank value *)
+Theorem C07_style_first_word :
+  forall pr st,
+  format_Pr_into_html pr xml2html_table = Ok st ->
+  (Forall has_word st <-> fw_okb pr = true).
+Proof. exact format_words_iff. Qed.
+Print Assumptions C07_style_first_word.
+
+(* w:vertAlign without a value yields the empty style string (schema-invalid: w:val is required) *)
+Theorem C07_blank_vertalign_refuted :
+  exists e ks st x,
+    get_run_formatting e ks xml2html_table = Ok st /\ In x st /\ first_word x = Err IndexError.
+Proof. exact styles_words_ok_counterexample. Qed.
+Print Assumptions C07_blank_vertalign_refuted.
